@@ -202,3 +202,34 @@ Proof.
   destruct n as [|[|[|[|n]]]]; vm_compute in Hn; discriminate.
 Qed.
 Print Assumptions C13_frame_refuted.
+
+(* ---------------------------------------------------------------- concurrency *)
+From OV Require C13.Atomic C13.Linearizable.
+
+(* LINEARIZABLE.  Goroutines run arbitrary programs of manager calls (Create, Close, Set, Delete, Commit,
+   Rollback-to-version under cd.mu.Lock; GetRunning, GetStartup, ListVersions under cd.mu.RLock); each
+   call is split into invoke / acquire / read / compute-on-a-local-copy+store / unlock / respond and other
+   goroutines are scheduled between any two of these.  Every history of a quiescent configuration has a
+   sequential reordering that (a) looks the same to every goroutine, (b) is legal for the sequential
+   model [Model.step] that all the theorems above are about, (c) respects real-time order.  For every
+   variant, registry, guard and initial state.  Assumption about Go: sync.RWMutex excludes as
+   [Atomic.can_acquire] says; which methods hold the lock throughout is listed in Linearizable.v. *)
+Theorem C13_linearizable :
+  forall var reg g st0 progs c,
+  Linearizable.m_reach var reg g st0 progs c -> Atomic.quiescent c ->
+  Linearizable.mgr_linearizable var reg g st0 (Atomic.c_hist c).
+Proof. exact Linearizable.mgr_ops_linearizable. Qed.
+Print Assumptions C13_linearizable.
+
+(* non-vacuity: a reachable quiescent configuration in which two Create calls overlap in real time (one is
+   granted, the other refused) and a GetRunning runs between the invocation and the response of a Commit
+   and still sees the old configuration *)
+Example C13_linearizable_nonvacuous :
+  exists c, Linearizable.m_reach Repaired Linearizable.lx_reg None Linearizable.lx_st0 Linearizable.lx_progs c /\
+            Atomic.quiescent c /\ length (Atomic.c_hist c) = 10%nat /\
+            get_leaf (running (Atomic.c_sh c tt)) Linearizable.lx_p = Some (SInt 1500).
+Proof.
+  destruct Linearizable.lx_reachable as [c [R [Q [r0 [r2 [s1 [l [H [_ [_ [_ E]]]]]]]]]]].
+  exists c. repeat split; auto. rewrite H. reflexivity.
+Qed.
+Print Assumptions C13_linearizable_nonvacuous.
